@@ -81,6 +81,7 @@ type World struct {
 	// MemberYields: park at the curve.member yield point (between the member evaluations of a function curve)
 	MemberYields bool
 	restore      *pendingRestore
+	faultMu      sync.Mutex
 	afterSeen    map[*FaultSpec]int       // operations seen by time-bound faults since they were armed
 	homeScratch  string                   // scratch directory below the home directory (home-relative file sensors)
 	curExecByG   map[uint64]*kernel.Event // the command each goroutine is about to start
@@ -324,6 +325,13 @@ func (w *World) ensureHomeScratch(dir string) (abs, rel string, ok bool) {
 	w.homeScratch = abs
 	w.K.StripPrefix2 = abs + "/"
 	return abs, rel, true
+}
+
+// CountFault counts a fault that took effect (callable from any goroutine, also in free-running race runs).
+func (w *World) CountFault(name string) {
+	w.faultMu.Lock()
+	w.FaultsFired[name]++
+	w.faultMu.Unlock()
 }
 
 func (w *World) sensorSpec(id string) *SensorSpec {
